@@ -23,7 +23,8 @@ func init() {
 			"R12 the '-' elision a '+' elision reproduces is selected by comparing their patch positions (data or control dependence on token.Position values), never by count or order alone; R13 length decisions of matchers compare only measured lengths, list positions, counters and constants — no length bound precomputed at compile time (a '...' must be able to stand for the empty run); " +
 			"R7 association failures are reported (connectDots's error is used); R8 'for ... {' accepts exactly *ast.ForStmt and *ast.RangeStmt, partitions all fields into Body and the others and reproduces all of them; R9 both compilePGoStmtList wrap a non-empty statement pattern in a leading and a trailing implicit elision. " +
 			"NOT decided: the shortest-run / left-to-right choice for all lists as an algorithmic property (only the shape facts R3–R5), mismatched-dots semantics, printer layout." +
-			" R14 a rewrite lands in the slot it matched (parent.<name>[index] of the current match).",
+			" R14 a rewrite lands in the slot it matched (parent.<name>[index] of the current match)." +
+			" R2 also: every '...' closes a section; R7 also: connectDots covers every '+' elision before it reports success.",
 		Trusted:     commonTrusted,
 		Assumptions: commonAssumptions,
 	})
